@@ -177,7 +177,7 @@ def step (_ : Unit) (toks : List String) : Unit × String :=
   match toks with
   | "K" :: _ :: loops =>
     match loops.mapM parseLoop with
-    | some specs => ((), kernelLine (expandNest specs []))
+    | some specs => ((), if nestRejected specs then rejectedLine else kernelLine (expandNest specs []))
     | none => ((), "bad-op")
   | "R" :: id :: rest =>
     let loops := rest.takeWhile (· ≠ "|")
